@@ -1,7 +1,7 @@
 //! C18 — "stalled snapshot" scenarios for the BMP boundary.
 //!
-//! Compiled as `crate::event::verif::c18::c18s` (included from c18.rs), i.e. a
-//! descendant of `event`: only there can a `Global` be built by hand
+//! Compiled as `crate::event::verif::c18s` (declared in event_verif.rs under the
+//! `verif_c18` flag), i.e. a descendant of `event`: only there can a `Global` be built by hand
 //! (`Global::new`, `add_peer`, `Peer.state`), which the daemon's own
 //! `BmpClient::try_connect` → `serve` loop needs next to a `TableManager` that
 //! the test owns.
@@ -28,7 +28,7 @@
 //! Adj-RIB-In the RIB holds (`iter_reach` / `iter_reach_post` under the shard
 //! locks) if the peer is established in Global at the end, and is empty
 //! otherwise; every PeerDown closes an open PeerUp.
-use super::super::super::*;
+use super::super::*;
 use crate::verif_common::*;
 #[path = "/verif/harness/daemon/c19_shared.rs"]
 mod shared;
